@@ -192,6 +192,16 @@ fn opt_int(o: Option<i64>) -> Variable {
 }
 
 /// independent expectation for the documented pure helpers (None = only the signature is judged)
+/// float rounding / transcendental functions: the property only requires their signature, so a value that differs
+/// from the host's f64 method is recorded as a note
+fn advisory(path: &str) -> bool {
+    const EXACT: [&str; 30] = [
+        "floor", "ceil", "round", "round_ties_even", "trunc", "fract", "ln", "log", "log2", "log10", "sin", "cos", "tan", "asin", "acos", "atan",
+        "atan2", "exp_m1", "ln_1p", "sinh", "cosh", "tanh", "asinh", "acosh", "atanh", "is_normal", "is_subnormal", "exp", "exp2", "sqrt",
+    ];
+    path.strip_prefix("math.").is_some_and(|f| EXACT.contains(&f))
+}
+
 fn expected(path: &str, a: &[Variable]) -> Option<Variable> {
     Some(match path {
         "len" => match &a[0] {
@@ -304,6 +314,45 @@ fn expected(path: &str, a: &[Variable]) -> Option<Variable> {
             }
             Variable::String(Arc::from(cs[lo..hi].iter().collect::<String>()))
         }
+        // the documentation defines these by reference to the host language's equivalents
+        "string.to_lowercase" => Variable::String(Arc::from(s(&a[0]).to_lowercase())),
+        "string.to_uppercase" => Variable::String(Arc::from(s(&a[0]).to_uppercase())),
+        "string.str_from_utf8_lossy" => {
+            let Variable::Array(arr) = &a[0] else { return None };
+            if arr.iter().any(|v| !(0..=255).contains(&i(v))) {
+                return None;
+            }
+            let bytes: Vec<u8> = arr.iter().map(|v| i(v) as u8).collect();
+            Variable::String(Arc::from(String::from_utf8_lossy(&bytes).to_string()))
+        }
+        "convert.parse_float" => s(&a[0]).parse::<f64>().ok().map_or(Variable::Void, Variable::Float),
+        "math.floor" => Variable::Float(f(&a[0]).floor()),
+        "math.ceil" => Variable::Float(f(&a[0]).ceil()),
+        "math.round" => Variable::Float(f(&a[0]).round()),
+        "math.round_ties_even" => Variable::Float(f(&a[0]).round_ties_even()),
+        "math.trunc" => Variable::Float(f(&a[0]).trunc()),
+        "math.fract" => Variable::Float(f(&a[0]).fract()),
+        "math.ln" => Variable::Float(f(&a[0]).ln()),
+        "math.log" => Variable::Float(f(&a[0]).log(f(&a[1]))),
+        "math.log2" => Variable::Float(f(&a[0]).log2()),
+        "math.log10" => Variable::Float(f(&a[0]).log10()),
+        "math.sin" => Variable::Float(f(&a[0]).sin()),
+        "math.cos" => Variable::Float(f(&a[0]).cos()),
+        "math.tan" => Variable::Float(f(&a[0]).tan()),
+        "math.asin" => Variable::Float(f(&a[0]).asin()),
+        "math.acos" => Variable::Float(f(&a[0]).acos()),
+        "math.atan" => Variable::Float(f(&a[0]).atan()),
+        "math.atan2" => Variable::Float(f(&a[0]).atan2(f(&a[1]))),
+        "math.exp_m1" => Variable::Float(f(&a[0]).exp_m1()),
+        "math.ln_1p" => Variable::Float(f(&a[0]).ln_1p()),
+        "math.sinh" => Variable::Float(f(&a[0]).sinh()),
+        "math.cosh" => Variable::Float(f(&a[0]).cosh()),
+        "math.tanh" => Variable::Float(f(&a[0]).tanh()),
+        "math.asinh" => Variable::Float(f(&a[0]).asinh()),
+        "math.acosh" => Variable::Float(f(&a[0]).acosh()),
+        "math.atanh" => Variable::Float(f(&a[0]).atanh()),
+        "math.is_normal" => Variable::Bool(f(&a[0]).is_normal()),
+        "math.is_subnormal" => Variable::Bool(f(&a[0]).is_subnormal()),
         "convert.to_string" => match &a[0] {
             Variable::Int(x) => Variable::String(Arc::from(x.to_string())),
             Variable::Bool(x) => Variable::String(Arc::from(x.to_string())),
@@ -362,7 +411,11 @@ impl Ctx<'_> {
                 if judge_expectation {
                     if let Some(e) = expected(path, args) {
                         self.rep.count("calls-with-independent-expectation");
-                        if canon(&e) != canon(&v) {
+                        if canon(&e) != canon(&v) && advisory(path) {
+                            // outside the helper families the property names: noted in the evidence, never a verdict
+                            self.rep.count("advisory-float-math-doc-mismatch");
+                            self.rep.sample("advisory-mismatch", 6, || Obj::new().s("call", &shown).s("result", &truncate(&canon(&v), 120)).s("host-equivalent", &truncate(&canon(&e), 120)).render());
+                        } else if canon(&e) != canon(&v) {
                             self.rep.violation(&format!("c18:{path}:wrong-result"), &format!("{shown} returned {}, documented result {}", truncate(&canon(&v), 200), truncate(&canon(&e), 200)), "c18", &shown);
                         }
                     }
@@ -614,7 +667,7 @@ pub fn run(cfg: &Cfg, rep: &mut Report) {
         cgetline_scenarios(&mut ctx);
     }
     let io_fs = |p: &str| p.starts_with("fs.") || p == "io.cgetline";
-    let per_fn = if cfg.thorough() { 4000 } else { 260 };
+    let per_fn = if cfg.thorough() { 20000 } else { 1500 };
     for (k, (path, fun)) in funcs.iter().enumerate() {
         if !cfg.owns(k as u64) || io_fs(path) {
             continue;
